@@ -31,6 +31,8 @@ const (
 	fkNilBytes               // option bytes: a []byte parameter that is compared with nil (funcs_tx.go)
 	fkPtr                    // option go_<sname>: a pointer to a struct of package bt (funcs_tx.go)
 	fkPtrs                   // list (option go_<sname>): a slice of such pointers (funcs_tx.go)
+	fkString                 // bytes: a Go string, as the bytes it holds (funcs_script.go)
+	fkMeth                   // Z: a method value of the function's own receiver, as a tag (funcs_sighash.go)
 )
 
 type fnType struct {
@@ -45,13 +47,13 @@ func (ty fnType) coq() string {
 		return "bool"
 	case fkInt:
 		return "Z"
-	case fkBytes:
+	case fkBytes, fkString:
 		return "bytes"
 	case fkInts:
 		return "list Z"
 	case fkStack:
 		return "list bytes"
-	case fkNum:
+	case fkNum, fkMeth:
 		return "Z"
 	case fkCfg:
 		return "bool"
@@ -160,6 +162,9 @@ func fnClassify(ty types.Type) (fnType, bool) {
 	if k, ok := fnClassifyTx(ty); ok {
 		return k, true
 	}
+	if k, ok := fnClassifySigHash(ty); ok {
+		return k, true
+	}
 	switch u := ty.Underlying().(type) {
 	case *types.Basic:
 		if u.Kind() == types.Bool || u.Kind() == types.UntypedBool {
@@ -167,6 +172,9 @@ func fnClassify(ty types.Type) (fnType, bool) {
 		}
 		if u.Kind() == types.UntypedNil {
 			return fnType{k: fkNil}, true
+		}
+		if u.Kind() == types.String || u.Kind() == types.UntypedString {
+			return fnType{k: fkString}, true
 		}
 		if it, ok := fnBasicIty[u.Kind()]; ok {
 			return fnType{k: fkInt, ity: it}, true
@@ -352,6 +360,8 @@ func (t *fnTr) expr(e ast.Expr) fnVal {
 				t.fail(e, "integer constant of unsupported type %s", tv.Type)
 			}
 			return fnVal{s: fnZ(tv.Value), pure: true, ty: ty}
+		case constant.String:
+			return t.stringConst(e, tv.Value)
 		}
 		t.fail(e, "constant of unsupported kind %s", tv.Value.Kind())
 	}
@@ -372,8 +382,14 @@ func (t *fnTr) expr(e ast.Expr) fnVal {
 		if t.isSentinelError(obj) {
 			return fnVal{s: "true", pure: true, ty: fnType{k: fkErr}}
 		}
+		if v, ok := t.pkgBytesVar(x, obj); ok {
+			return v
+		}
 		t.fail(e, "identifier %s is not a local variable, parameter, constant or sentinel error", x.Name)
 	case *ast.SelectorExpr, *ast.StarExpr:
+		if v, ok := t.methodValue(e); ok {
+			return v
+		}
 		if v, ok := t.txSelector(e); ok {
 			return v
 		}
@@ -392,6 +408,9 @@ func (t *fnTr) expr(e ast.Expr) fnVal {
 			return t.numLiteral(x)
 		}
 		a := t.expr(x.X)
+		if x.Op == token.NOT && a.ty.k == fkBool { // also where go/types has no type for the operand (a call into a placeholder package: !bytes.Equal(..))
+			return t.seq([]fnVal{a}, func(ts []string) fnVal { return fnVal{s: "negb " + ts[0], pure: true, ty: a.ty} })
+		}
 		ty := t.typeOf(e)
 		switch x.Op {
 		case token.NOT:
@@ -483,6 +502,9 @@ func (t *fnTr) expr(e ast.Expr) fnVal {
 		return r
 	case *ast.CompositeLit:
 		ty := t.typeOf(e)
+		if v, ok := t.scriptLiteral(x, ty); ok {
+			return v
+		}
 		if ty.k != fkBytes {
 			t.fail(e, "composite literal that is not a []byte")
 		}
